@@ -26,9 +26,29 @@ class Record(dict):
     def skip(self, name, n=1):
         self["skips"][name] = self["skips"].get(name, 0) + n
 
+    def reach(self, name, item):
+        self.setdefault("sets", {}).setdefault(name, [])
+        if item not in self["sets"][name]:
+            self["sets"][name].append(item)
+
     def absorb(self, out):
         """Fold the counters of an Outcome into this record."""
         self["sim_runs"] += 1
+        ev = [(e["kind"][0], e.get("task"), e.get("worker")) for e in out.sim.events
+              if e["kind"] in ("start", "finish")]
+        if ev:
+            # interleaving signature: order of start/finish events per round, task ids relative to the round's first
+            sig, cur, base = [], [], None
+            for k, t, w in ev:
+                cur.append(f"{k}{t}w{w}")
+            self.reach("pool_event_orders", str(hash(tuple(cur)) % (10 ** 12)))
+        ph = [p["name"][:4] + ("!" if p.get("exc") else "") for p in out.sim.phases
+              if p["name"] in ("repopulate", "statistics", "optimise", "relabel")]
+        if ph:
+            self.reach("phase_histories", str(hash(tuple(ph)) % (10 ** 12)))
+        for f in out.sim.faults:
+            if f.get("fired"):
+                self.reach("fault_points", f"{f['kind']}:{f.get('phase', 'task')}:{f.get('when')}:{f.get('round', f.get('occ'))}:{f.get('exc')}")
         self["events"] += len(out.sim.events)
         for k, v in out.sim.probes.items():
             self.probe(k, v)
